@@ -162,6 +162,13 @@ CHECKS = {
         'Refuted.v holds vm_compute witnesses that each statement without the side condition is false of the faithful model (known findings C06-F1..F6, F9). Tie: generated binder-explicit core queries over generated schemas compiled by the REAL compiler — ir.cardinality / ir.multiplicity / shape out_cardinality must equal the model\'s; the Coq eval agrees with toy_eval_model on the common fragment; upstream\'s 260 pinned inference labels must hold; '
         'monitor independent of the model: every query (incl. an exploration stream with implicit path factoring) is evaluated by toy_eval_model on random conforming databases incl. empty tables and compared with the compiler\'s answer. Ten genuine over-claims are known findings.',
    note='Trusted: Coq kernel; extraction; translator; harness; vrt substrate; toy_eval_model as reference semantics (plus harness-added assert_*, array_get, empty-safe min/max). Outside the calculus (monitors only): implicit path factoring, GROUP, DML, globals, schema-computed pointers, inheritance, link properties; FOR-disjointness (TFor) instances are covered by monitors only. No axioms.'),
+ 'C13': dict(
+   category='translation_validation', design_ref='DESIGN.md section 4, C13 (+ section 9 change log)',
+   technique='Coq-verified SQL scope checker (sound and complete w.r.t. a declarative transcription of PostgreSQL name resolution) and parameter checker, run on an abstraction of every SQL tree the real compiler emits; two-compilation / cross-hash-seed determinism test',
+   text='Translation validation with machine-checked validators. Proved for all abstract SQL statements (unbounded nesting, range variables, CTEs, sub-selects, parameters): well_scoped q = true <-> Scoped q, where Scoped transcribes PostgreSQL\'s rules (nearest enclosing level, LATERAL visibility, JOIN ... ON scope, LIMIT/OFFSET, WITH ordering, DML target / RETURNING / excluded, ORDER BY / GROUP BY output names, duplicate aliases); params_ok <-> the physical indexes of the argument map are distinct, exactly 1..k and exactly the $n of the statement. '
+        'Tie: the real compile_ast_to_ir -> compile_ir_to_sql_tree -> codegen (NATIVE and JSON), and for a slice the server compiler on a NormalizedSource, run on generated and harvested queries (SELECT/INSERT/UPDATE/DELETE/FOR/GROUP, nesting, 0-17 parameters, globals); the pgast is abstracted to terms (fidelity to the SQL text checked through a token skeleton) and fed to the EXTRACTED checkers (cross-checked against a Python reference and vm_compute). '
+        'Determinism is a TEST, not a theorem: every statement is compiled twice in one process and a sample under other PYTHONHASHSEED values; three determinism defects are known findings (one parameter defect was repaired, fix 6be7b20).',
+   note='Trusted: Coq kernel; extraction; the hand-written Scoped transcription (PostgreSQL absent; no type/aggregate/grouping rules); the pgast -> term abstraction (FigureColname port, table catalog; unknown relations are wildcards); harness; vrt substrate. Nothing of the compiler is modelled. No axioms.'),
 }
 
 NA_DEFAULT = 'check not built yet (round 1 in progress); see DESIGN.md section 6'
